@@ -131,6 +131,9 @@ func (g *Gen) instantiateContext(terms []string) []string {
 		if !strings.HasPrefix(l, "(assert ") || !strings.Contains(l, "(forall ((") || !strings.Contains(l, " Int))") {
 			continue
 		}
+		if k := strings.LastIndex(l, " ; @loop:"); k > 0 {
+			l = l[:k] // the loop tag of an assumption line (see Gen.assume)
+		}
 		xs := parseSx(l)
 		if len(xs) != 1 || len(xs[0].list) != 2 {
 			continue
